@@ -176,8 +176,13 @@ func (c *SCIONClient) measureClockOffsetSCION(ctx context.Context, mtrcs *scionC
 			c.Log.LogAttrs(ctx, slog.LevelInfo, "failed to fetch key exchange data", slog.Any("error", err))
 			return time.Time{}, 0, err
 		}
-		remoteAddr.Host.IP = net.ParseIP(ntskeData.Server)
-		remoteAddr.Host.Port = int(ntskeData.Port)
+		// The caller's address (which also is the address of the key exchange
+		// server) must not be written through the shared pointer.
+		remoteAddr.Host = &net.UDPAddr{
+			IP:   net.ParseIP(ntskeData.Server),
+			Port: int(ntskeData.Port),
+			Zone: remoteAddr.Host.Zone,
+		}
 		if remoteAddr.IA == localAddr.IA {
 			path = spath.Path{
 				Src:           localAddr.IA,
